@@ -1,13 +1,15 @@
 import PyecoreModel.Lemmas.StoreNav
+import PyecoreModel.Lemmas.FragmentText
 /-!
 # C11 — An object's URI fragment always resolves back to that object
 
 `frag` mirrors `EObject.eURIFragment`, `resolve` mirrors `Resource.resolve` → `extract_rootnum_and_frag` →
 `_navigate_from` (positional form).  The index written into a fragment is the position the collection *reports*
 (`index()`); that it is the iteration position is C04 (`C04_index_is_position`), and in the Store the slot *is*
-the iteration order.  The string layer (rendering a `Path` as `/2/@kids.0/@leaf`) is covered by the correspondence:
-the check renders the model's `Path` and compares it with the real `eURIFragment()` text, and feeds the real text to
-the real `resolve`.
+the iteration order.  The string layer (rendering a path as `/2/@kids.0/@leaf` and reading it back) is
+`C11_fragment_text`, over the document model's paths (feature names and indices; `Lemmas/FragmentText.lean`); that the
+real `eURIFragment()` text is the rendering of the model's path is the correspondence: the check renders the model's
+`Path`, compares it with the real text, and feeds the real text to the real `resolve`.
 -/
 namespace Store
 
@@ -53,3 +55,16 @@ example :
     resolve exMM11 s 0 (frag exMM11 s 5 4) = some 4 ∧ resolve exMM11 s 0 (frag exMM11 s 5 2) = some 2 := by decide
 
 end Store
+
+namespace XDoc
+
+/-- **The text of a positional fragment reads back as the path it was written for** (`eURIFragment` /
+`extract_rootnum_and_frag` + `_navigate_from`): every root number, any depth, single-valued steps (`@f`) and indexed ones
+(`@f.3`), for feature names without the four characters the syntax uses; in a single-root resource the root is `/`. -/
+theorem C11_fragment_text (single : Bool) (p : Path) (hn : ∀ s ∈ p.segs, NameOK s.1) (hroot : single = true → p.root = 0) :
+    parsePath (renderPath single p) = some p :=
+  parse_render single p hn hroot
+
+example : renderPath false ⟨2, [("kids".toList, some 0), ("leaf".toList, none)]⟩ = "/2/@kids.0/@leaf".toList := by decide
+
+end XDoc
